@@ -465,6 +465,530 @@ def b_top(g, W, sz):
     return _finish(la + ["call " + first, "call top_echelonize_m4ri A %d" % k], da), dict(shape=(nr, nc), kinds=(ka,), k=k)
 
 
+# ------------------------------------------------------------------------------------------------
+# C03 — PLE / PLUQ.  P and Q are pre-filled with junk; every output (A', P, Q, r) is dumped.
+# The integer argument of mzd_ple/mzd_pluq/_mzd_ple/_mzd_pluq is the STRASSEN cutoff handed on to
+# TRSM/addmul (the PLE base-case threshold __M4RI_PLE_CUTOFF is a build constant, ple.h:40).
+# ------------------------------------------------------------------------------------------------
+import gen as _gen
+
+_SCUT = [0, 0, 64, 128, 1024]
+# set by the engines around runs in the stress build: fraction of shapes forced into the block recursion of
+# ple.c for a PLE cut-off of REC_WORDS words (ncols > 64 and width * nrows > REC_WORDS)
+REC_BIAS = 0.0
+REC_WORDS = 512
+
+
+def _rec_shape(g, cap):
+    r = g.rng
+    n = min(max(cap, 65), r.choice([65, 100, 127, 128, 129, 130, 130, 191, 192, 193, 200, 257, 300]))
+    need = REC_WORDS // ((n + 63) // 64) + 1
+    return need + r.choice([0, 1, 2, 7, r.randint(0, 40), r.randint(0, 120)]), n
+
+
+def _ple_shape(g, sz, k=None):
+    r = g.rng
+    if REC_BIAS and r.random() < REC_BIAS:
+        return _rec_shape(g, 2 * sz)
+    c = r.random()
+    cap = 2 * sz
+    if c < 0.3:
+        m, n = g.dim(sz), g.dim(cap)
+    elif c < 0.5:
+        # m < n, m = n, m > n with n at the word borders
+        n = r.choice([d for d in (1, 2, 63, 64, 65, 127, 128, 129, 130, 191, 192, 193, 256, 257) if d <= cap])
+        m = max(1, min(cap, r.choice([1, 2, n - 1, n, n + 1, 2 * n + 1, n // 2, r.randint(1, sz)])))
+    elif c < 0.75:
+        # number of lookup tables of the Four-Russians base case: right edge at every residue of ncols mod 7k
+        kk = k if k else r.choice([2, 3, 4, 5, 6, 7, 8])
+        n = max(1, min(cap, 7 * kk * r.randint(0, 3) + r.randint(0, 7 * kk)))
+        m = g.dim(sz)
+    else:
+        # entry of the block recursion in the stress build (L3 = 4 KiB: width * nrows > 512 and ncols > 64)
+        n = min(cap, r.choice([65, 100, 128, 129, 130, 192, 193, 200, 257, 300]))
+        m = min(cap, r.choice([100, 150, 171, 180, 200, 256, 257, 300]))
+    return m, n
+
+
+def _ple_content(g, m, n):
+    if g.rng.random() < 0.7:
+        return _gen.rank_profile_rows2(g, m, n)
+    return g.rows(m, n)
+
+
+def _ple(name, has_k):
+    def b(g, W, sz):
+        k = g.rng.choice([0, 0, 2, 3, 4, 5, 6, 7, 8]) if has_k else None
+        m, n = _ple_shape(g, sz, k)
+        ra, ka = _ple_content(g, m, n)
+        la, da = g.operand("A", m, n, ra, W("A"))
+        lines = la + [g.perm_line("P", _gen.junk_perm(g, m)), g.perm_line("Q", _gen.junk_perm(g, n))]
+        if name in ("_ple_naive", "_pluq_naive"):
+            par, call = None, "call %s A P Q" % name
+        elif has_k:
+            par, call = k, "call %s A P Q %d" % (name, k)
+        else:
+            par = g.rng.choice(_SCUT)
+            call = "call %s A P Q %d" % (name, par)
+        return _finish(lines + [call], da, ["P", "Q"]), dict(shape=(m, n), kinds=(ka,), k=k if has_k else None,
+                                                              param=None if has_k else par, width=(n + 63) // 64)
+    op(name, "C03", ["A"])(b)
+
+
+_ple("ple", False)
+_ple("pluq", False)
+_ple("_ple_naive", False)
+_ple("_pluq_naive", False)
+_ple("_ple_russian", True)
+_ple("_pluq_russian", True)
+
+
+# ------------------------------------------------------------------------------------------------
+# C04 — triangular solves: unit diagonal, garbage in the unused triangle, T and B dumped
+# ------------------------------------------------------------------------------------------------
+def _trsm(name, upper, left):
+    def b(g, W, sz):
+        n = _gen.tri_dim(g, sz)
+        w = g.rng.choice([g.dim(sz), g.dim(sz), g.rng.choice([d for d in (1, 63, 64, 65, 127, 128, 129, 130) if d <= max(sz, 1)])])
+        garbage = g.rng.random() < 0.85
+        rt = g.unit_tri_rows(n, upper, garbage=garbage)
+        br, bc = (n, w) if left else (w, n)
+        rb, kb = g.rows(br, bc, g.rng.choice(["dense", "dense", "dense", "sparse", "ident", "ones", "lowrank", "zero", "single"]))
+        lt, dt = g.operand("T", n, n, rt, W("T"))
+        lb, db = g.operand("B", br, bc, rb, W("B"))
+        cut = g.rng.choice(_SCUT)
+        return _finish(lt + lb + ["call %s T B %d" % (name, cut)], dt + db), dict(shape=(n, w), kinds=("tri+garbage" if garbage else "tri", kb),
+                                                                                  param=cut, upper=upper, left=left)
+    op(name, "C04", ["T", "B"])(b)
+
+
+for _pre in ("", "_"):
+    _trsm(_pre + "trsm_upper_left", True, True)
+    _trsm(_pre + "trsm_lower_left", False, True)
+    _trsm(_pre + "trsm_upper_right", True, False)
+    _trsm(_pre + "trsm_lower_right", False, False)
+
+
+# ------------------------------------------------------------------------------------------------
+# C05 — inversion of invertible matrices; in-place inversion of unit upper triangular matrices
+# ------------------------------------------------------------------------------------------------
+@op("inv_m4ri", "C05", ["D", "A"])
+def b_inv_m4ri(g, W, sz):
+    n = _gen.tri_dim(g, sz)
+    ra = g.invertible_rows(n)
+    la, da = g.operand("A", n, n, ra, W("A"))
+    ld, dd, dn = _dst(g, W, "D", n, n)
+    k = g.rng.choice([0, 0, 1, 2, 3, 4, 5, 6, 7, 8, 9, 10, 16])
+    return _finish(la + ld + ["call inv_m4ri R %s A %d" % (dn, k)], da + dd + (["R"] if dn == "-" else [])), dict(
+        shape=(n, n), kinds=("invertible",), k=k, width=(n + 63) // 64)
+
+
+@op("invert_naive", "C05", ["D", "A", "I"])
+def b_invert_naive(g, W, sz):
+    n = _gen.tri_dim(g, sz)
+    ra = g.invertible_rows(n)
+    la, da = g.operand("A", n, n, ra, W("A"))
+    li, di = g.operand("I", n, n, [1 << i for i in range(n)], W("I"))
+    ld, dd, dn = _dst(g, W, "D", n, n)
+    return _finish(la + li + ld + ["call invert_naive R %s A I" % dn], da + di + dd + (["R"] if dn == "-" else [])), dict(
+        shape=(n, n), kinds=("invertible",), width=(n + 63) // 64)
+
+
+@op("trtri_upper", "C05", ["A"])
+def b_trtri_upper(g, W, sz):
+    n = _gen.tri_dim(g, sz)
+    # the stored diagonal is read by the Four-Russians base (must be one); the lower triangle is not touched
+    garbage = g.rng.random() < 0.5
+    ra = g.unit_tri_rows(n, True, garbage=garbage)
+    la, da = g.operand("A", n, n, ra, W("A"))
+    return _finish(la + ["call trtri_upper A"], da), dict(shape=(n, n), kinds=("tri+garbage" if garbage else "tri",), width=(n + 63) // 64)
+
+
+# ------------------------------------------------------------------------------------------------
+# C06 — solving.  B has max(m, n) rows; rows >= m are the padding rows.
+# ------------------------------------------------------------------------------------------------
+def _solve_system(g, sz):
+    r = g.rng
+    c = r.random()
+    if REC_BIAS and r.random() < REC_BIAS:
+        m, n = _rec_shape(g, 2 * sz)
+    elif c < 0.3:
+        n = g.dim(sz)
+        m = r.randint(1, n)                  # m <= n: padding rows exist when m < n
+    elif c < 0.45:
+        n = g.dim(sz)
+        m = n
+    elif c < 0.7:
+        m = g.dim(sz)
+        n = r.randint(1, m)
+    else:
+        n = r.choice([d for d in (2, 3, 5, 17, 63, 64, 65, 66, 100, 127, 128, 129, 130) if d <= max(sz, 3)])
+        m = max(1, n - r.choice([1, 1, 2, 3, n // 2, n - 1]))
+    w = r.choice([1, 1, 2, 3, r.randint(1, 130), r.randint(1, 130), 63, 64, 65, 127, 128, 129, 130])
+    ck = r.random()
+    if ck < 0.55:
+        ra, ka = _gen.rank_profile_rows2(g, m, n)
+    elif ck < 0.7:
+        ra, ka = _gen.rank_profile_rows2(g, m, n, "fullrank")
+    elif ck < 0.78:
+        ra, ka = [0] * m, "zero"
+    else:
+        ra, ka = g.rows(m, n)
+    rows_b = max(m, n)
+    x0, _ = g.rows(n, w, r.choice(["dense", "dense", "sparse", "zero", "ones"]))
+    b = _gen.mat_mul_rows(ra, x0) + [0] * (rows_b - m)
+    mode = r.choice(["consistent", "consistent", "consistent", "pad-one", "pad-one", "pad-last", "pad-first", "random", "flip", "zero"])
+    if mode.startswith("pad") and m >= n:
+        mode = "flip"
+    if mode == "pad-one":
+        b[r.randrange(m, rows_b)] ^= 1 << r.choice([0, w - 1, r.randrange(w)])     # ONE bit in ONE padding row
+    elif mode == "pad-last":
+        b[rows_b - 1] ^= 1 << r.randrange(w)
+    elif mode == "pad-first":
+        b[m] ^= 1 << r.randrange(w)
+    elif mode == "random":
+        b, _ = g.rows(rows_b, w, "dense")
+    elif mode == "flip":
+        b[r.randrange(m)] ^= 1 << r.randrange(w)
+    elif mode == "zero":
+        b = [0] * rows_b
+    return m, n, w, ra, ka, b, mode
+
+
+@op("solve_left", "C06", ["A", "B"])
+def b_solve_left(g, W, sz):
+    m, n, w, ra, ka, rb, mode = _solve_system(g, sz)
+    la, da = g.operand("A", m, n, ra, W("A"))
+    lb, db = g.operand("B", max(m, n), w, rb, W("B"))
+    cut = g.rng.choice(_SCUT)
+    check = 0 if g.rng.random() < 0.25 else 1
+    return _finish(la + lb + ["call solve_left A B %d %d" % (cut, check)], da + db), dict(
+        shape=(m, n, w), kinds=(ka,), mode=mode, param=cut, check=check, rel="m<n" if m < n else ("m=n" if m == n else "m>n"))
+
+
+@op("pluq_solve_left", "C06", ["A", "B"])
+def b_pluq_solve_left(g, W, sz):
+    m, n, w, ra, ka, rb, mode = _solve_system(g, sz)
+    la, da = g.operand("A", m, n, ra, W("A"))
+    lb, db = g.operand("B", max(m, n), w, rb, W("B"))
+    cut = g.rng.choice(_SCUT)
+    check = 0 if g.rng.random() < 0.25 else 1
+    lines = la + lb + [g.perm_line("P", _gen.junk_perm(g, m)), g.perm_line("Q", _gen.junk_perm(g, n)),
+                       "call pluq A P Q %d" % cut, "call pluq_solve_left A ret P Q B %d %d" % (cut, check)]
+    return _finish(lines, da + db, ["P", "Q"]), dict(shape=(m, n, w), kinds=(ka,), mode=mode, param=cut, check=check,
+                                                      rel="m<n" if m < n else ("m=n" if m == n else "m>n"))
+
+
+# ------------------------------------------------------------------------------------------------
+# C07 — kernel
+# ------------------------------------------------------------------------------------------------
+@op("kernel_left_pluq", "C07", ["A"])
+def b_kernel(g, W, sz):
+    m, n = _ple_shape(g, sz)
+    ra, ka = _ple_content(g, m, n)
+    la, da = g.operand("A", m, n, ra, W("A"))
+    cut = g.rng.choice(_SCUT)
+    return _finish(la + ["call kernel_left_pluq R A %d" % cut], da + ["R"]), dict(shape=(m, n), kinds=(ka,), param=cut)
+
+
+# ------------------------------------------------------------------------------------------------
+# Tier A for the non-unique outputs: the implementation's own output is handed to the VERIFIED checkers
+# (chk_* commands of ocaml/ext.ml).  A checker script = the definitions of the original script + the
+# matrices / permutations the C side printed + one chk_ call; the model must answer "ok 1".
+# ------------------------------------------------------------------------------------------------
+CHECKERS = {}
+
+
+def _chk_plu(cmd):
+    def f(case, outs, rets):
+        if not ("A" in outs and "P" in outs and "Q" in outs and rets):
+            return None
+        return [" ".join(["mat", "A_out"] + outs["A"][2:]), " ".join(["perm", "P_out"] + outs["P"][2:]),
+                " ".join(["perm", "Q_out"] + outs["Q"][2:]), "call %s A A_out P_out Q_out %s" % (cmd, rets[0])]
+    return f
+
+
+for _n in ("ple", "_ple_naive", "_ple_russian"):
+    CHECKERS[_n] = _chk_plu("chk_ple")
+for _n in ("pluq", "_pluq_naive", "_pluq_russian"):
+    CHECKERS[_n] = _chk_plu("chk_pluq")
+
+
+def _chk_solve(case, outs, rets):
+    if "B" not in outs or not rets:
+        return None
+    return [" ".join(["mat", "X_out"] + outs["B"][2:]), "call chk_solve A B X_out %s %d" % (rets[-1], case.meta.get("check", 1))]
+
+
+CHECKERS["solve_left"] = _chk_solve
+CHECKERS["pluq_solve_left"] = _chk_solve
+
+
+def _chk_kernel(case, outs, rets):
+    if "R" not in outs:
+        return None
+    if outs["R"][2] == "NULL":
+        return ["call chk_kernel A NULL"]
+    return [" ".join(["mat", "K_out"] + outs["R"][2:]), "call chk_kernel A K_out"]
+
+
+CHECKERS["kernel_left_pluq"] = _chk_kernel
+
+
+def checker_case(case, co):
+    """the Tier-A checker script for a case, given the C side's output (fate, lines, fateline); None if the
+    operation has no checker or the C side did not finish"""
+    from corr import Case
+    f = CHECKERS.get(case.meta.get("op"))
+    if f is None or co is None or co[0] != "OK":
+        return None
+    defs = []
+    for l in case.lines:
+        if l.startswith("call "):
+            break
+        defs.append(l)
+    outs, rets = {}, []
+    for l in co[1]:
+        t = l.split()
+        if t[0] == "ret":
+            rets.append(t[1])
+        elif t[0] in ("mat", "perm") and t[1] not in outs:
+            outs[t[1]] = t
+    if "check" not in case.meta:
+        # replayed case: recover the inconsistency_check argument from the call line
+        for l in case.lines:
+            t = l.split()
+            if t[0] == "call" and t[1] in ("solve_left", "pluq_solve_left"):
+                case.meta["check"] = int(t[-1])
+    extra = f(case, outs, rets)
+    if extra is None:
+        return None
+    return Case("chk-" + case.id, defs + extra, {"op": case.meta.get("op"), "of": case.id})
+
+
+def tier_a(cases, cout):
+    """-> list of (case, why, c_out, checker_out) for the cases whose C output fails the verified checker"""
+    import corr
+    chk = {}
+    for c in cases:
+        cc = checker_case(c, cout.get(c.id))
+        if cc is not None:
+            chk[c.id] = cc
+    mo = corr.run_model(list(chk.values()))
+    bad = []
+    for c in cases:
+        cc = chk.get(c.id)
+        if cc is None:
+            continue
+        o = mo.get(cc.id)
+        if o is None or o[0] != "OK" or not o[1] or any(l.strip() != "ok 1" for l in o[1]):
+            bad.append((c, "tier A: the verified checker rejects the implementation's output", cout.get(c.id), o))
+    return bad, len(chk)
+
+
+# ------------------------------------------------------------------------------------------------
+# Two-tier engine of the factorisation / solving properties (C03..C07), used by tools/props/c03..c07.py.
+#   Tier A  the property on the implementation's output: unique outputs (TRSM solution, inverse, verdict)
+#           equal the model's; non-unique outputs (P/L/E, X of a rank-deficient system, kernel basis) pass
+#           the verified checker; the call ends normally.  A failure is a failing input: VIOLATION + replay.
+#   Tier B  exact equality of every dumped object with the algorithm-faithful model (ple_rec over ple_naive
+#           with the build's PLE cut-off, Solve.*_cfg).  Tier B failing alone triggers a Tier-A search at
+#           larger sizes; no hit => VIOLATION ... no-failing-input-found.
+# ------------------------------------------------------------------------------------------------
+VARIANTS = {
+    "host": lambda vlib: vlib.variant(),
+    "small": lambda vlib: vlib.variant(name="small", **vlib.SMALL),
+    # L3 = 4 KiB: __M4RI_PLE_CUTOFF = 512 words, the block recursion of ple.c is entered at 130 x 180
+    "stress": lambda vlib: vlib.variant(name="stress", l1=4096, l2=32768, l3=4096),
+}
+
+
+def ple_cutoff_words(variant):
+    return min(524288, int(variant["l3"]) >> 3)      # ple.h:40
+
+
+def regime_of(case, variant):
+    """which cache-dependent regime the call enters in this build (reported in the evidence distribution)"""
+    m = case.meta
+    prop = CATALOG.get(m.get("op"), {}).get("prop")
+    sh = m.get("shape", ())
+    if prop in ("C03", "C07") or m.get("op") in ("solve_left", "pluq_solve_left"):
+        nr, nc = sh[0], sh[1]
+        return "ple-rec" if nc > 64 and ((nc + 63) // 64) * nr > ple_cutoff_words(variant) else "ple-base"
+    if prop == "C04":
+        n = sh[0]
+        bs = min(int((4 * int(variant["l3"])) ** 0.5) // 2, 2048)
+        return "word" if n <= 64 else ("middle" if n <= bs and m.get("op", "").lstrip("_") != "trsm_lower_right" else "rec")
+    if m.get("op") == "trtri_upper":
+        return "rec" if sh[0] * sh[0] >= 2 * int(variant["l3"]) else "russian"
+    return "-"
+
+
+class Tiers:
+    def __init__(self, res, prop, variant, unique=False, tag=None):
+        import corr
+        self.res, self.prop, self.variant, self.unique = res, prop, variant, unique
+        self.tag = tag if tag is not None else "/cfg=" + variant["name"]
+        self.runner = corr.Runner(variant)
+        self.nA = self.nB = self.ncases = self.nchk = 0
+
+    def env(self):
+        import os
+        os.environ["VERIF_PLE_CUTOFF"] = str(ple_cutoff_words(self.variant))
+
+    def evaluate(self, cases):
+        """-> (tierA failures, tierB-only failures, cout, mout)"""
+        import corr
+        self.env()
+        cout, mout = self.runner.run(cases)
+        exact = corr.compare(cases, cout, mout)
+        badA, nchk = tier_a(cases, cout)
+        self.nchk += nchk
+        seen = set(b[0].id for b in badA)
+        onlyB = []
+        for b in exact:
+            c, why = b[0], b[1]
+            if c.id in seen:
+                continue
+            has_checker = c.meta.get("op") in CHECKERS
+            if self.unique or not has_checker or why.startswith("fate") or why.startswith("missing"):
+                badA.append((c, "tier A: " + why, b[2], b[3]))
+                seen.add(c.id)
+            else:
+                onlyB.append((c, "tier B only (the verified checker accepts the output): " + why, b[2], b[3]))
+        return badA, onlyB, cout, mout
+
+    def shrink(self, case, W, seed):
+        """a smaller failing case of the same operation, by regeneration"""
+        import gen
+        for sz in (6, 12, 24, 48, 70):
+            g = gen.G(seed + sz)
+            cs = [build(case.meta["op"], g, W, sz) for _ in range(25)]
+            badA, _, _, _ = self.evaluate(cs)
+            if badA:
+                badA.sort(key=lambda b: len(b[0].text()))
+                return badA[0]
+        return None
+
+    def run(self, opnames, seed, n_per_op, sz, W=None, cases=None, search_sz=None):
+        import gen, engine, corr, vlib
+        res = self.res
+        if cases is None:
+            g = gen.G(seed)
+            cases = [build(name, g, W, sz) for name in opnames for _ in range(n_per_op)]
+        badA, onlyB, cout, mout = self.evaluate(cases)
+        dist = res.cov.setdefault("distribution", {})
+        for c in cases:
+            m = c.meta
+            reg = regime_of(c, self.variant)
+            nontrivial = not all(k in ("zero",) for k in m.get("kinds", ("x",))) and max(m.get("shape", (2,))) > 1
+            key = (m.get("op"), tuple(s // 64 for s in m.get("shape", ())), tuple(s % 64 == 0 for s in m.get("shape", ())),
+                   tuple(str(k).split("/", 1)[-1] for k in m.get("kinds", ())), m.get("param"), m.get("k"), m.get("mode"), m.get("check"), reg, self.tag)
+            res.count(key, nontrivial)
+            d = dist.setdefault(m.get("op") + self.tag, {"n": 0})
+            d["n"] += 1
+            d[reg] = d.get(reg, 0) + 1
+            co = cout.get(c.id)
+            rets = [l for l in (co[1] if co else []) if l.startswith("ret ")]
+            if rets and m.get("op") in ("solve_left", "pluq_solve_left"):
+                kk = "verdict " + rets[-1][4:] + ("" if m.get("check") else " (check off)")
+                d[kk] = d.get(kk, 0) + 1
+            if m.get("mode"):
+                d["mode " + m["mode"]] = d.get("mode " + m["mode"], 0) + 1
+            if m.get("op") == "kernel_left_pluq" and co:
+                kk = "NULL" if any(l.startswith("mat R NULL") for l in co[1]) else "basis"
+                d[kk] = d.get(kk, 0) + 1
+        if cases and len(res.cov["samples"]) < 6:
+            res.cov["samples"].append(cases[0].text()[:600])
+            res.cov["samples"].append(cases[-1].text()[:600])
+        self.ncases += len(cases)
+        self.nA += len(badA)
+        self.nB += len(onlyB)
+        t = res.cov.setdefault("tiers", {})
+        tt = t.setdefault(self.variant["name"], {"cases": 0, "tierA_checker_runs": 0, "tierA_failures": 0, "tierB_only": 0})
+        tt["cases"], tt["tierA_checker_runs"], tt["tierA_failures"], tt["tierB_only"] = self.ncases, self.nchk, self.nA, self.nB
+        engine.handle_mismatches(res, self.prop, badA, self.runner, tag=self.tag + "/tierA",
+                                 regen=lambda case: self.shrink(case, W, seed + 1))
+        # Tier B alone: search for a failing input among larger / more cases of the same operations, Tier A only
+        if onlyB and not badA:
+            opsB = sorted(set(b[0].meta["op"] for b in onlyB))
+            g = gen.G(seed + 99)
+            more = [build(name, g, W, search_sz or min(2 * sz, 400)) for name in opsB for _ in range(max(40, 2 * n_per_op))]
+            hitA, _, _, _ = self.evaluate(more)
+            if hitA:
+                engine.handle_mismatches(res, self.prop, hitA, self.runner, tag=self.tag + "/tierA-search")
+            else:
+                reported = set()
+                for c, why, co, mo in onlyB:
+                    if c.meta["op"] in reported:
+                        continue
+                    reported.add(c.meta["op"])
+                    path = vlib.write_replay(self.prop, (c.meta["op"] + self.tag + "/tierB").replace("/", "_"),
+                                             "# property %s: correspondence no longer checks: the output of %s differs from the algorithm-faithful "
+                                             "model while the verified checker accepts it; a Tier-A search over %d further cases found no failing input [%s]\n"
+                                             "# replay: python3 tools/check.py %s --replay <this file>\n%s" % (
+                                                 self.prop, c.meta["op"], len(more), self.tag, self.prop, corr.describe(c, why, co, mo)))
+                    res.violation(path, no_input=True)
+        elif onlyB:
+            res.cov.setdefault("tierB_mismatches_beside_tierA", 0)
+            res.cov["tierB_mismatches_beside_tierA"] += len(onlyB)
+        return cases, badA, onlyB
+
+
+def corpus_cases(prop):
+    """(variant name, Case) of every committed script of corpus/<prop>/"""
+    import glob, os, re, vlib
+    from corr import Case
+    out = []
+    for f in sorted(glob.glob(os.path.join(vlib.VERIF, "corpus", prop, "*.txt"))):
+        txt = open(f).read()
+        if "--- script" not in txt:
+            continue
+        body = txt.split("--- script\n", 1)[1].split("--- C side", 1)[0].strip().split("\n")
+        m = re.search(r"cfg=([a-z0-9-]+)", txt.split("--- script", 1)[0])
+        opn = body[0][5:].strip().split("-")[0]
+        lines = [l for l in body[1:] if not l.startswith("end")]
+        out.append((m.group(1) if m and m.group(1) in VARIANTS else "host",
+                    Case("corpus-" + os.path.basename(f)[:-4], lines, {"op": opn, "corpus": os.path.basename(f), "shape": (2, 2)})))
+    return out
+
+
+def run_corpus(res, prop, tiers_by_variant):
+    by = {}
+    for vn, c in corpus_cases(prop):
+        by.setdefault(vn if vn in tiers_by_variant else "host", []).append(c)
+    for vn, cs in by.items():
+        t = tiers_by_variant[vn]
+        old = t.tag
+        t.tag = old + "/corpus"
+        t.run([], 0, 0, 0, cases=cs)
+        t.tag = old
+        res.cov["corpus_cases"] = res.cov.get("corpus_cases", 0) + len(cs)
+
+
+def replay_tiers(res, prop, path, unique=False):
+    """re-run the script of a replay file in the build it was found in, both tiers"""
+    import re, vlib
+    from corr import Case
+    txt = open(path).read()
+    if "--- script" not in txt:
+        return None
+    head = txt.split("--- script", 1)[0]
+    m = re.search(r"cfg=([a-z0-9-]+)", head)
+    vn = m.group(1) if m and m.group(1) in VARIANTS else "host"
+    body = txt.split("--- script\n", 1)[1].split("--- C side", 1)[0].strip().split("\n")
+    cid = body[0][5:].strip()
+    case = Case(cid, [l for l in body[1:] if not l.startswith("end")], {"op": cid.split("-")[0] if not cid.startswith("corpus-") else "", "shape": (2, 2)})
+    if not case.meta["op"]:
+        for l in case.lines:
+            if l.startswith("call "):
+                case.meta["op"] = l.split()[1]
+    t = Tiers(res, prop, VARIANTS[vn](vlib), unique=unique)
+    t.tag += "/replay"
+    t.run([], 0, 0, 0, cases=[case])
+    return t
+
+
 def build(name, g, W=None, sz=130):
     d = CATALOG[name]
     Wf = (lambda role: None) if W is None else (W if callable(W) else (lambda role: W.get(role)))
